@@ -18,6 +18,8 @@ type Step = pw.Step
 type Scenario struct {
 	InitialHeight uint64 `json:"initial_height"`
 	Lazy          bool   `json:"lazy,omitempty"`
+	// CustomPayload: the node signs a non-default payload (ManagerOptions.SignaturePayloadProvider).
+	CustomPayload bool   `json:"custom_payload,omitempty"`
 	Steps         []Step `json:"steps"`
 }
 
@@ -89,6 +91,7 @@ func genScenario(t *rapid.T) Scenario {
 		sc.InitialHeight = 1<<32 + uint64(rapid.IntRange(0, 9).Draw(t, "ihbig"))
 	}
 	sc.Lazy = rapid.Bool().Draw(t, "lazy")
+	sc.CustomPayload = rapid.IntRange(0, 3).Draw(t, "custompayload") == 0
 	n := rapid.IntRange(1, world.Scale(12, 40)).Draw(t, "nsteps")
 	for i := 0; i < n; i++ {
 		sc.Steps = append(sc.Steps, genStep(t))
@@ -97,7 +100,7 @@ func genScenario(t *rapid.T) Scenario {
 }
 
 func run(sc Scenario, dir string) world.Verdict {
-	p, err := pw.New(world.NodeOpts{ChainID: "c01-chain", InitialHeight: sc.InitialHeight, Lazy: sc.Lazy, RootDir: dir})
+	p, err := pw.New(world.NodeOpts{ChainID: "c01-chain", InitialHeight: sc.InitialHeight, Lazy: sc.Lazy, RootDir: dir, CustomPayload: sc.CustomPayload})
 	if err != nil {
 		return world.Fail("C01/start", "NewManager failed on a fresh store: %v", err)
 	}
